@@ -140,10 +140,142 @@ def run_coeffs(ctx, fs):
     return dis
 
 
+
+# ------------------------------------------------------------------ RotationMap (genHInfo / apply)
+
+class RotCase:
+    def __init__(self, cid, n, it, mapmode, angle, ext, data, coef):
+        self.cid, self.n, self.it, self.mapmode, self.angle, self.ext, self.data, self.coef = cid, n, it, mapmode, angle, ext, data, coef
+
+    def impl_text(self):
+        return "rot %s %d %d %d %s %s %s\n" % (self.cid, self.n, self.it, self.mapmode, fhex(self.angle),
+                                               " ".join(fhex(e) for e in self.ext), " ".join(fhex(v) for v in self.data))
+
+    def replay(self):
+        return dict(kind="rot", n=self.n, it=self.it, mapmode=self.mapmode, angle=fhex(self.angle), ext=[fhex(e) for e in self.ext],
+                    coef=self.coef, data=[fhex(v) for v in self.data] if self.coef is None else "polynomial")
+
+
+def rot_cases(ctx, count):
+    rng = ctx.rng
+    import math
+    cases = []
+    for i in range(count):
+        n = rng.choice(range(6, 15))
+        it = rng.choice([1, 2, 3, 4])
+        mapmode = rng.choice([0, 1, 1])
+        angle = f32(rng.choice([0.0, math.pi / 2, math.pi, 0.05, 0.2, -0.3, rng.uniform(-1.5, 1.5), rng.uniform(0.01, 0.4)]))
+        ext = rng.choice([(-6.0, 6.0, -6.0, 6.0), (-5.0, 7.0, -6.0, 6.0), (-4.0, 4.0, -3.0, 5.0), (-6.0, 6.0, -8.0, 4.0)])
+        if rng.random() < 0.6:
+            coef = [[rng.randint(-2, 2) for _ in range(it)] for _ in range(it)]     # coef[k][l] x^k y^l
+            data = [float(sum(coef[k][l] * x ** k * y ** l for k in range(it) for l in range(it))) for x in range(n) for y in range(n)]
+        else:
+            coef = None
+            data = [float(rng.randint(-8, 8)) if rng.random() < 0.6 else 0.0 for _ in range(n * n)]
+        cases.append(RotCase("r%d" % i, n, it, mapmode, angle, ext, data, coef))
+        ctx.count("rot:it%d" % it)
+        ctx.count("rot:map%d" % mapmode)
+    return cases
+
+
+def run_rot(ctx, cases):
+    """RotationMap through the implementation, the model on the implementation's own (cos, sin,
+    axes); table index exact, weights and outputs in tolerance; oracles: weights of a fully
+    interior grid point sum to one, polynomial fields x^k y^l (k,l < it) are reproduced at the
+    rotated coordinate of every fully interior point."""
+    tg = ctx.build()
+    rc, out, err = run_driver(tg["impl_kick"], "".join(c.impl_text() for c in cases))
+    if rc != 0:
+        raise RuntimeError("impl_kick (rot) failed rc=%d: %s" % (rc, err[-1500:]))
+    impl = parse_cases(out)
+    mtext = []
+    for c in cases:
+        r = impl[c.cid]
+        par = [parse_c(t) for t in r["par"][0]]
+        ax = [parse_c(t) for t in r["ax"][0]]
+        ay = [parse_c(t) for t in r["ay"][0]]
+        mtext.append("rot %s %d %d %s %s %s %s\n" % (c.cid, c.n, c.it, " ".join(qtok(v) for v in par), " ".join(qtok(v) for v in ax),
+                                                     " ".join(qtok(v) for v in ay), " ".join(qtok(Fraction(v)) for v in c.data)))
+    rc, out, err = run_driver(model_driver_path("kick"), "".join(mtext))
+    if rc != 0:
+        raise RuntimeError("model_kick (rot) failed rc=%d: %s" % (rc, err[-1500:]))
+    model = parse_cases(out)
+    dis = []
+    for c in cases:
+        n, it = c.n, c.it
+        ip = it * it
+        r, m = impl[c.cid], model[c.cid]
+        defined = [t == "1" for t in m["defined"][0]]
+        mt = m["table"][0]
+        mtab = [(int(mt[k], 16), parse_q(mt[k + 1])) for k in range(0, len(mt), 2)]
+        mout = [parse_q(t) for t in m["out"][0]]
+        iout = [parse_c(t) for t in r["out"][0]]
+        itab = None
+        if c.mapmode:
+            tt = r["table"][0]
+            itab = [(int(tt[k]), parse_c(tt[k + 1])) for k in range(0, len(tt), 2)]
+        par = [parse_c(t) for t in r["par"][0]]
+        ax = [parse_c(t) for t in r["ax"][0]]
+        ay = [parse_c(t) for t in r["ay"][0]]
+        cs, sn, d0, d1, z0, z1 = [float(v) for v in par]
+        bad = False
+        cdis = False
+        for g in range(n * n):
+            if not defined[g]:
+                continue          # negative float -> unsigned conversion: undefined behaviour (C17)
+            ent = mtab[g * ip:(g + 1) * ip]
+            if itab is not None:
+                for j in range(ip):
+                    (ii, iw), (mi, mw) = itab[g * ip + j], ent[j]
+                    if isinstance(iw, str) or ii != mi or abs(iw - mw) > Fraction(24, 2 ** 24) * max(1, abs(mw)):
+                        if not cdis:
+                            dis.append(dict(case=c.replay(), detail=dict(point=g, j=j, impl=[ii, str(iw)], model=[mi, str(mw)]),
+                                            sig=dict(kind="rot", stage="correspondence", what="table")))
+                        cdis = True
+                        break
+            cond = sum(abs(w) * abs(Fraction(c.data[idx])) for idx, w in ent)
+            tol = Fraction(48, 2 ** 24) * max(cond, 1)
+            if isinstance(iout[g], str) or abs(iout[g] - mout[g]) > tol:
+                if not cdis:
+                    dis.append(dict(case=c.replay(), detail=dict(point=g, impl=str(iout[g]), model=str(mout[g]), tol=str(tol)),
+                                    sig=dict(kind="rot", stage="correspondence", what="out")))
+                cdis = True
+            # ---- oracles on the implementation (fully interior stencil only)
+            x0, y0 = divmod(g, n)
+            x1r = f32(f32(f32(f32(cs * float(ax[x0])) - f32(sn * float(ay[y0]))) / d0) + z0)
+            y1r = f32(f32(f32(f32(sn * float(ax[x0])) + f32(cs * float(ay[y0]))) / d1) + z1)
+            import math
+            x1, y1 = math.floor(x1r), math.floor(y1r)
+            cen = kc.centre(it)
+            interior = (0 <= x1 - cen and x1 + it - 1 - cen < n and 0 <= y1 - cen and y1 + it - 1 - cen < n)
+            if not interior:
+                continue
+            if itab is not None:
+                sw = sum(w for _, w in itab[g * ip:(g + 1) * ip])
+                if abs(sw - 1) > Fraction(64, 2 ** 24):
+                    ctx.violation("impl-oracle", "rotation weights of an interior grid point do not sum to one", case=c.replay(),
+                                  observed=dict(point=g, sum=str(sw)), expected="1 +- 64*2^-24", sig=dict(kind="rot", clause="unity", it=it))
+                    bad = True
+                    break
+            if c.coef is not None:
+                X, Y = Fraction(x1r), Fraction(y1r)
+                exp = sum(c.coef[k][l] * X ** k * Y ** l for k in range(it) for l in range(it))
+                scale = sum(abs(c.coef[k][l]) * (abs(X) + 2) ** k * (abs(Y) + 2) ** l for k in range(it) for l in range(it))
+                if isinstance(iout[g], str) or abs(iout[g] - exp) > Fraction(96, 2 ** 24) * max(scale, 1):
+                    ctx.violation("impl-oracle", "polynomial field x^k y^l (k,l < %d) not reproduced at the rotated coordinate" % it,
+                                  case=c.replay(), observed=dict(point=g, value=str(iout[g])), expected=str(exp),
+                                  sig=dict(kind="rot", clause="poly", it=it))
+                    bad = True
+                    break
+                ctx.case_done(("rot", c.cid, g), it > 1 and c.angle != 0)
+        ctx.evaluations += 1
+    return dis
+
+
 def run(ctx):
     ctx.rule = ("kick cases: n 4..33, both directions, it 1..4, nb 1..3, streams exact (offsets k/16, integer data, bit equality), "
                 "whole (integer offsets, arbitrary data, bit equality), tol (arbitrary floats, K*2^-24*cond), polynomial fields; "
-                "coefficient samples in [0,1). Non-trivial: non-zero shift on non-zero data / degree>=1 with fractional offset / it>1 and f!=0.")
+                "coefficient samples in [0,1); RotationMap cases n 6..14, it 1..4, angles 0, +-small, pi/2, pi, random, shifted extents, precomputed and on-the-fly map, polynomial x^k y^l and random data. Non-trivial: non-zero shift on non-zero data / degree>=1 with fractional offset / it>1 and f!=0.")
     coq = vp_coq.full_check("C02", ctx, fams=("kick",))
     nk = 120 if ctx.quick() else 3000
     cases = kc.gen_cases(ctx, nk, streams=("exact", "whole", "tol", "whole"))
@@ -163,6 +295,9 @@ def run(ctx):
     ctx.sample(cases[0].describe())
     ctx.sample(dict(pc[0].describe(), coef=pc[0].coef))
     dis += run_coeffs(ctx, coeff_cases(ctx, 400 if ctx.quick() else 40000))
+    rc = rot_cases(ctx, 40 if ctx.quick() else 600)
+    dis += run_rot(ctx, rc)
+    ctx.sample(rc[0].replay() if rc[0].coef is not None else dict(rc[0].replay(), data="(random integers)"))
     ctx.extra["correspondence_disagreements"] = len(dis)
     ctx.assumptions += ["exact-arithmetic model; rounding handled by the exact/tolerance streams (DESIGN 3)",
                         "rnd32 (Base/Float32.v) is trusted, validated by the correspondence itself",
